@@ -726,6 +726,13 @@ impl Expr {
                 .append(RcDoc::text(".("))
                 .append(go_type_doc(ty))
                 .append(RcDoc::text(")")),
+            Expr::ClippedSlice { slice, .. } => slice
+                .to_doc(goenv)
+                .append(RcDoc::text("[:len("))
+                .append(slice.to_doc(goenv))
+                .append(RcDoc::text("):len("))
+                .append(slice.to_doc(goenv))
+                .append(RcDoc::text(")]")),
             Expr::StructLiteral { ty, fields } => {
                 let fields_doc = if fields.is_empty() {
                     RcDoc::nil()
